@@ -1,4 +1,205 @@
-import ReplicatModel.LocalFS
+import ReplicatProofs.Lemmas.Store
+import ReplicatProofs.Lemmas.Paging
+/-!
+# C13 — all backends behave as the same simple object store
+
+Specification: `Store.Spec = Name → Option Bytes` with `Store.SpecStep` (what every operation must return and do).
+Property theorems only; helper lemmas live in `Lemmas/Store.lean`, `Lemmas/Paging.lean`, `Lemmas/LocalFS.lean`.
+-/
 namespace Replicat.C13
-theorem placeholder : True := trivial
+open Replicat Replicat.Store Replicat.Paging
+
+/-- side conditions every adapter shares: the streamed variants are called with a chunk size ≥ 1 -/
+def ChunkOk : Op → Prop
+  | .uploadStream _ _ c => 1 ≤ c
+  | .downloadStream _ c _ => 1 ≤ c
+  | _ => True
+
+/-- the name an operation addresses satisfies `P` (listings: no condition) -/
+def NameOk (P : Name → Prop) (op : Op) : Prop :=
+  match op.name? with
+  | some n => P n
+  | none => True
+
+/-! ## pagination -/
+
+/-- **S3 pagination is complete.** Against every protocol-conformant service (any split of the matching keys into pages,
+any order of the XML elements inside a page) the `IsTruncated` / `NextContinuationToken` loop returns exactly the keys the
+service holds, in order, each as often as served, sends exactly one request per page, and terminates: any fuel ≥ the number
+of pages gives the same result. -/
+theorem s3_paging_complete (respond : Option Name → List Elem) (ks : List Name) (n : Nat)
+    (hc : S3Conf respond none ks n) (fuel : Nat) (hf : n ≤ fuel) :
+    s3List respond fuel = some ks ∧ s3Requests respond fuel ⟨Gen.s3LoopStartsTruncated, none⟩ = n := by
+  unfold s3List
+  rw [gen_startsTruncated]
+  exact s3Loop_conf respond none ks n hc fuel hf ⟨true, none⟩ rfl rfl
+
+/-- **B2 pagination is complete** (`nextFileName` loop), same statement. -/
+theorem b2_paging_complete (respond : Option Name → B2Page) (ks : List Name) (n : Nat)
+    (hc : B2Conf respond none ks n) (fuel : Nat) (hf : n ≤ fuel) :
+    b2List respond fuel = some ks ∧ b2Requests respond fuel none = n :=
+  b2Loop_conf respond none ks n hc fuel hf
+
+/-- **Every page size ≥ 1.** The services that cut the listing into pages of `ps` names are protocol-conformant, so both
+loops return exactly the names the service holds, each once, however many pages that takes. -/
+theorem paging_complete (ps : Nat) (hps : 1 ≤ ps) (names : List Name) (hnd : names.Nodup) :
+    s3List (s3Serve ps names) (names.length + 1) = some names ∧
+    b2List (b2Serve ps names) (names.length + 1) = some names := by
+  obtain ⟨n, hn, hc⟩ := s3Serve_conf ps hps names
+  obtain ⟨m, hm, hb⟩ := b2Serve_conf ps hps names hnd
+  exact ⟨(s3_paging_complete _ names n hc _ hn).1, (b2_paging_complete _ names m hb _ hm).1⟩
+
+/-- the flag test and the sticky token are what the loop really depends on: a page that says `IsTruncated = true` and
+carries no token makes the loop ask for the same page again (so the conformance hypothesis is not vacuous) -/
+theorem s3_nonconformant_witness :
+    s3List (fun _ => [(tagIsTruncated, "true".toList), (tagKey, "k".toList)]) 5 = none := by decide
+
+/-! ## streams -/
+
+/-- **Streamed transfers are lossless** for every chunk size ≥ 1: the bytes that reach the service are the payload, and a
+sink with arbitrary previous content holds exactly the object afterwards. -/
+theorem stream_lossless (c : Nat) (hc : 1 ≤ c) (d sink : Bytes) : streamed c d = d ∧ sinkAfter sink c d = d :=
+  ⟨streamed_eq c hc d, sinkAfter_eq sink c hc d⟩
+
+/-! ## the executable specification and the S3 adapter -/
+
+/-- the association-list store run by the driver is the specification -/
+theorem map_refines (s : MapStore) (hinv : s.Inv) (op : Op) :
+    (s.step op).1.Inv ∧ SpecStep s.abs op (s.step op).1.abs (s.step op).2 := by
+  cases op with
+  | upload n d => exact ⟨MapStore.inv_put s n d hinv, MapStore.abs_put s n d, rfl⟩
+  | uploadStream n d c => exact ⟨MapStore.inv_put s n d hinv, MapStore.abs_put s n d, rfl⟩
+  | delete n => exact ⟨MapStore.inv_erase s n hinv, MapStore.abs_erase s n, rfl⟩
+  | exists_ n => exact ⟨hinv, rfl, rfl⟩
+  | download n =>
+    refine ⟨hinv, rfl, ?_⟩
+    simp only [MapStore.step, MapStore.abs]
+  | downloadStream n c sink =>
+    refine ⟨hinv, rfl, ?_⟩
+    simp only [MapStore.step, MapStore.abs]
+  | list pfx =>
+    obtain ⟨h1, h2⟩ := MapStore.list_ok s hinv pfx
+    exact ⟨hinv, rfl, _, rfl, h1, h2⟩
+
+/-- **The S3 adapter refines the map**, for every page size ≥ 1, on names without `.`/`..` segments: every operation
+returns what the map returns and commutes with the abstraction (PUT replaces, DELETE is idempotent, HEAD/GET agree with the
+map, listing = the live names with the prefix, each once). -/
+theorem s3_refines (ps : Nat) (hps : 1 ≤ ps) (s : S3) (hinv : MapStore.Inv s) (op : Op)
+    (hn : NameOk (fun n => hasDotSegment n = false) op) (hc : ChunkOk op) :
+    MapStore.Inv (S3.step ps s op).1 ∧ SpecStep (MapStore.abs s) op (MapStore.abs (S3.step ps s op).1) (S3.step ps s op).2 := by
+  cases op with
+  | upload n d =>
+    have hn' : hasDotSegment n = false := hn
+    simp only [S3.step, s3Guard, hn', Bool.false_eq_true, if_false]
+    exact ⟨MapStore.inv_put s n d hinv, MapStore.abs_put s n d, rfl⟩
+  | uploadStream n d c =>
+    have hn' : hasDotSegment n = false := hn
+    have hc' : 1 ≤ c := hc
+    simp only [S3.step, s3Guard, hn', Bool.false_eq_true, if_false, streamed_eq c hc' d]
+    exact ⟨MapStore.inv_put s n d hinv, MapStore.abs_put s n d, rfl⟩
+  | delete n =>
+    have hn' : hasDotSegment n = false := hn
+    simp only [S3.step, s3Guard, hn', Bool.false_eq_true, if_false]
+    exact ⟨MapStore.inv_erase s n hinv, MapStore.abs_erase s n, rfl⟩
+  | exists_ n =>
+    have hn' : hasDotSegment n = false := hn
+    simp only [S3.step, s3Guard, hn', Bool.false_eq_true, if_false]
+    exact ⟨hinv, rfl, rfl⟩
+  | download n =>
+    have hn' : hasDotSegment n = false := hn
+    simp only [S3.step, s3Guard, hn', Bool.false_eq_true, if_false]
+    refine ⟨hinv, rfl, ?_⟩
+    simp only [MapStore.abs]
+  | downloadStream n c sink =>
+    have hn' : hasDotSegment n = false := hn
+    have hc' : 1 ≤ c := hc
+    simp only [S3.step, s3Guard, hn', Bool.false_eq_true, if_false]
+    refine ⟨hinv, rfl, ?_⟩
+    simp only [MapStore.abs]
+    cases MapStore.get s n with
+    | none => rfl
+    | some d => simp only [sinkAfter_eq sink c hc' d]
+  | list pfx =>
+    obtain ⟨h1, h2⟩ := MapStore.list_ok s hinv pfx
+    have hp := (paging_complete ps hps _ h1).1
+    simp only [S3.step, hp]
+    exact ⟨hinv, rfl, _, rfl, h1, h2⟩
+
+/-- forced hypothesis (D8): for a name with a dot segment the S3 adapter does not behave like the map — the signed path and
+the path httpx sends differ, the service answers 403 and nothing is stored -/
+theorem s3_dot_segment_witness :
+    hasDotSegment "a/../b".toList = true ∧
+    (S3.step 1000 [] (.upload "a/../b".toList [1])).2 = .error .forbidden ∧
+    ¬ SpecStep (MapStore.abs []) (.upload "a/../b".toList [1]) (MapStore.abs (S3.step 1000 [] (.upload "a/../b".toList [1])).1)
+      (S3.step 1000 [] (.upload "a/../b".toList [1])).2 := by
+  refine ⟨by decide, by decide, ?_⟩
+  intro h
+  have : (S3.step 1000 [] (.upload "a/../b".toList [1])).2 = .unit := h.2
+  exact absurd this (by decide)
+
+/-! ## the B2 adapter -/
+
+/-- **The B2 adapter refines the map**, for every page size ≥ 1, on names that survive being put unquoted into a URL
+(`b2Addr n = some n`): uploads push a version, `delete` hides (idempotent because `already_hidden` / `no_such_file` are
+tolerated — read from the source), download / exists see the newest version iff it is an upload, and listing returns the
+names whose newest version is an upload, each once, whatever versions and hide markers lie below. -/
+theorem b2_refines (ps : Nat) (hps : 1 ≤ ps) (s : B2) (hinv : s.Inv) (op : Op)
+    (hn : NameOk (fun n => b2Addr n = some n) op) (hc : ChunkOk op) :
+    (B2.step ps s op).1.Inv ∧ SpecStep s.abs op (B2.step ps s op).1.abs (B2.step ps s op).2 := by
+  cases op with
+  | upload n d => exact ⟨B2.inv_setVersions s n _ hinv, B2.abs_upload s n d _, rfl⟩
+  | uploadStream n d c =>
+    have hc' : 1 ≤ c := hc
+    simp only [B2.step, streamed_eq c hc' d]
+    exact ⟨B2.inv_setVersions s n _ hinv, B2.abs_upload s n d _, rfl⟩
+  | delete n =>
+    have htol1 : (400 = Gen.b2ToleratedHideStatus ∧ "no_such_file" ∈ Gen.b2ToleratedHideCodes) := by decide
+    have htol2 : (400 = Gen.b2ToleratedHideStatus ∧ "already_hidden" ∈ Gen.b2ToleratedHideCodes) := by decide
+    simp only [B2.step, B2.hideFile]
+    cases hv : s.versions n with
+    | nil =>
+      have hvis : s.visible n = none := by simp [B2.visible, hv, headUp]
+      simp only [htol1, and_self, if_true]
+      exact ⟨hinv, (B2.abs_del_of_not_visible s n hvis).symm, rfl⟩
+    | cons v vs =>
+      cases v with
+      | hide =>
+        have hvis : s.visible n = none := by simp [B2.visible, hv, headUp]
+        simp only [htol2, and_self, if_true]
+        exact ⟨hinv, (B2.abs_del_of_not_visible s n hvis).symm, rfl⟩
+      | up d => exact ⟨B2.inv_setVersions s n _ hinv, B2.abs_hide s n _, rfl⟩
+  | exists_ n =>
+    have hn' : b2Addr n = some n := hn
+    simp only [B2.step, hn']
+    exact ⟨hinv, rfl, rfl⟩
+  | download n =>
+    have hn' : b2Addr n = some n := hn
+    simp only [B2.step, hn']
+    refine ⟨hinv, rfl, ?_⟩
+    simp only [B2.abs]
+  | downloadStream n c sink =>
+    have hn' : b2Addr n = some n := hn
+    have hc' : 1 ≤ c := hc
+    simp only [B2.step, hn']
+    refine ⟨hinv, rfl, ?_⟩
+    simp only [B2.abs]
+    cases s.visible n with
+    | none => rfl
+    | some d => simp only [sinkAfter_eq sink c hc' d]
+  | list pfx =>
+    have h1 : (s.liveNames.filter (fun k => pfx.isPrefixOf k)).Nodup := (B2.nodup_liveNames s hinv).filter _
+    have hp := (paging_complete ps hps _ h1).2
+    simp only [B2.step, hp]
+    refine ⟨hinv, rfl, _, rfl, h1, ?_⟩
+    intro n
+    simp only [List.mem_filter, B2.mem_liveNames s hinv, List.isPrefixOf_iff_prefix, B2.abs]
+
+/-- forced hypothesis (D8): B2 object names are put into the download URL unquoted; `?` ends the path, so `exists` looks at
+another object — after uploading `a?b` the adapter reports it missing -/
+theorem b2_url_metachar_witness :
+    b2Addr "a?b".toList = some "a".toList ∧
+    (B2.step 1000 (B2.step 1000 [] (.upload "a?b".toList [1])).1 (.exists_ "a?b".toList)).2 = .bool false ∧
+    ((B2.step 1000 [] (.upload "a?b".toList [1])).1.abs "a?b".toList).isSome = true := by
+  refine ⟨by decide, by decide, by decide⟩
+
 end Replicat.C13
